@@ -955,8 +955,12 @@ fn finish(g: &mut G, profile_name: &str, seed: u64, mut actors: Vec<ActorSpec>, 
         let a = g.r.below(n as u64) as usize;
         let uid = g.uid();
         let uid2 = g.uid();
-        let last = if g.r.chance(50) {
+        let last = if g.r.chance(40) {
             Op::Stop { slot: 0 }
+        } else if g.r.chance(40) {
+            // an ask that is enqueued and given up in the same poll (zero timeout): its envelope is then the only thing that
+            // refers to the actor
+            Op::Send { slot: 0, kind: SendKind::AskTo(0), mty: MTy::U, body: Body::plain(uid) }
         } else {
             Op::Send {
                 slot: 0,
